@@ -1,0 +1,5 @@
+//go:build !verif
+
+package decoration
+
+func verifEvent(string, string) {}
